@@ -866,6 +866,17 @@ def check_C14(tier):
                 np.add.at(cnt, (cols[:, r] // side, cols[:, r] % side), 1)
                 stat.append({"fn": "joint", "counts": cnt.tolist(), "n": len(cols), "W": side, "out": "ok", "rows": [r, r],
                              "depth": D, "width": Wn})
+    # deep and wide shapes (depth * log2(width) > 64: a scheme that slices one 64-bit hash per key runs out of bits and
+    # repeats rows only there): columns reduced to 4 classes by their low and by their high bits, every pair of rows
+    for Wd, Dd, kind in ((256, 16, "linear"), (16, 32, "log8"), (65536, 8, "log16"), (1024, 12, "linear")):
+        cols = np.array([impl.cm_cols(lambda: cm.CountMin(kind, Wd, Dd), k) for k in keys[:4096]]) - 1
+        for red, rc in (("low", cols % 4), ("high", (cols * 4) // Wd)):
+            for a in range(Dd):
+                for b in range(a + 1, Dd):
+                    cnt = np.zeros((4, 4), int)
+                    np.add.at(cnt, (rc[:, a], rc[:, b]), 1)
+                    stat.append({"fn": "joint", "counts": cnt.tolist(), "n": len(cols), "W": 4, "out": "ok", "rows": [a, b],
+                                 "depth": Dd, "width": Wd, "bits": red})
     # Zipf stream: a few keys heavier than e*N/width
     zw, zd, zn = (64, 8, 5000) if quick else (32, 8, 20000)
     sk = cm.CountMinLinear(zw, zd)
